@@ -1,4 +1,6 @@
 import PytmeModel.Model.C18
+import PytmeModel.Model.C18Cli
+import PytmeModel.Proofs.C18Cli
 import PytmeModel.Props.C01
 import PytmeModel.Props.C03
 
@@ -113,5 +115,1017 @@ example : keptAt 3 20 3 = true ∧ keptAt 3 20 16 = true ∧ keptAt 3 20 2 = fal
 example : refPos [5, 4] [3, 7] = [5, 9] := by decide
 example : loadAll (writeItems (fun i => s!"f{i}") 0 [("a", 7)] [.obj "scores", .memmap [2, 3] "f4" "a" 7, .tup "meta" "x"]).1
     = [.obj "scores", .memmap (encShape [2, 3] "f4" "f1"), .tup "meta" "x"] := by decide
+
+
+/-! ## The decision logic of `scripts/postprocess.py` (executable model: `Model/C18Cli.lean`, run by the driver and compared
+with the script's own functions called in-process) -/
+
+/-- `--mask_edges` is superseded by an explicit `--min_boundary_distance` -/
+theorem effDist_pos (me : Bool) (d : Nat) (t : List Nat) (h : 0 < d) : effDist me d t = d := by
+  unfold effDist
+  have : (d == 0) = false := by simp; omega
+  simp [this]
+
+/-- without `--mask_edges` the distance is the one given -/
+theorem effDist_off (d : Nat) (t : List Nat) : effDist false d t = d := by simp [effDist]
+
+/-- **`--mask_edges`** alone: the distance is half the largest template extent, rounded up — the window then excludes every
+voxel whose template box (of the largest extent) would overhang the target -/
+theorem effDist_mask_edges (t : List Nat) :
+    maxL t ≤ 2 * effDist true 0 t ∧ 2 * effDist true 0 t ≤ maxL t + 1 := by
+  simp only [effDist, Bool.true_and, beq_self_eq_true, if_true]
+  omega
+
+/-- **Which voxels are inside the window**: on every axis `d ≤ x` and `x + d < n` (and the ranks agree) -/
+theorem inWindow_iff (d : Nat) : ∀ (shape pos : List Nat),
+    inWindow d shape pos = true ↔ List.Forall₂ (fun n x => d ≤ x ∧ x + d < n) shape pos
+  | [], [] => by simp [inWindow]
+  | [], _ :: _ => by simp [inWindow]
+  | _ :: _, [] => by simp [inWindow]
+  | n :: ns, x :: xs => by
+    simp only [inWindow, Bool.and_eq_true, List.forall₂_cons, inWindow_iff d ns xs, keptAt, decide_eq_true_eq]
+
+/-- the window is the per-axis `keptAt` of the container theorems (composition with `kept_at_exact_distance`) -/
+theorem inWindow_cons (d n x : Nat) (ns xs : List Nat) :
+    inWindow d (n :: ns) (x :: xs) = (keptAt d n x && inWindow d ns xs) := rfl
+
+/-- **The planted voxel survives iff its own distance to the nearest face is at least `d`.** -/
+theorem inWindow_iff_borderDist (d : Nat) : ∀ (shape pos : List Nat) (b : Nat),
+    inShape shape pos = true → borderDist shape pos = some b → (inWindow d shape pos = true ↔ d ≤ b)
+  | [], [], _, _, hb => by simp [borderDist] at hb
+  | [], _ :: _, _, hs, _ => by simp [inShape] at hs
+  | _ :: _, [], _, hs, _ => by simp [inShape] at hs
+  | [n], [x], b, hs, hb => by
+    have hx : x < n := by simpa [inShape] using hs
+    simp only [borderDist, Option.some.injEq] at hb
+    simp only [inWindow, keptAt, Bool.and_true, Bool.and_eq_true, decide_eq_true_eq]
+    omega
+  | n :: n' :: ns, x :: x' :: xs, b, hs, hb => by
+    obtain ⟨hx, hr⟩ := inShape_cons.mp hs
+    have e : borderDist (n :: n' :: ns) (x :: x' :: xs)
+        = (borderDist (n' :: ns) (x' :: xs)).map (min (min x (n - 1 - x))) := by
+      rw [borderDist]; intro h; cases h
+    rw [e] at hb
+    cases hb' : borderDist (n' :: ns) (x' :: xs) with
+    | none => simp [hb'] at hb
+    | some b' =>
+      have ih := inWindow_iff_borderDist d (n' :: ns) (x' :: xs) b' hr hb'
+      rw [hb'] at hb
+      simp only [Option.map_some, Option.some.injEq] at hb
+      rw [inWindow_cons, Bool.and_eq_true, ih]
+      simp only [keptAt, Bool.and_eq_true, decide_eq_true_eq]
+      omega
+  | [_], _ :: _ :: _, _, hs, _ => by simp [inShape] at hs
+  | _ :: _ :: _, [_], _, hs, _ => by simp [inShape] at hs
+
+/-- **The surviving set is exactly the voxels within the window and the score range** (`d = 0`: no window), with their
+original scores: the multiplication by the boundary mask changes nothing for a voxel that survives. -/
+theorem mem_survivors_iff (d : Nat) (shape : List Nat) (lo hi : Option Int) (vox : List Vox) (c : Vox) :
+    c ∈ survivors d shape lo hi vox ↔
+      c ∈ vox ∧ (d = 0 ∨ inWindow d shape c.pos = true) ∧ inRange lo hi c.score = true := by
+  unfold survivors survive
+  rw [List.mem_filter, List.mem_map]
+  constructor
+  · rintro ⟨⟨v, hv, rfl⟩, hs⟩
+    simp only [Bool.and_eq_true, Bool.or_eq_true, beq_iff_eq] at hs
+    rcases hs.1 with h0 | hw
+    · subst h0
+      rw [maskVox_zero] at hs ⊢
+      exact ⟨hv, Or.inl rfl, hs.2⟩
+    · have hw' : inWindow d shape v.pos = true := by rwa [maskVox_pos] at hw
+      rw [maskVox_of_inWindow d shape v hw'] at hs ⊢
+      exact ⟨hv, Or.inr hw', hs.2⟩
+  · rintro ⟨hv, hw, hr⟩
+    have hc : maskVox d shape c = c := by
+      rcases hw with h0 | hw
+      · subst h0; exact maskVox_zero shape c
+      · exact maskVox_of_inWindow d shape c hw
+    refine ⟨⟨c, hv, hc⟩, ?_⟩
+    simp only [Bool.and_eq_true, Bool.or_eq_true, beq_iff_eq]
+    exact ⟨hw, hr⟩
+
+/-- whatever the limit on the number of peaks: only survivors are reported -/
+theorem ppCall_subset (k d : Nat) (shape : List Nat) (lo hi : Option Int) (vox : List Vox) (c : Vox)
+    (h : c ∈ ppCall k d shape lo hi vox) : c ∈ survivors d shape lo hi vox := by
+  unfold ppCall at h
+  unfold survivors
+  rw [List.mem_filter] at h ⊢
+  exact ⟨(sortDesc_perm _).subset (List.mem_of_mem_take h.1), h.2⟩
+
+/-- **Without an effective limit** (`k` at least the number of voxels - what `--minimum_score` arranges, see
+`ppNumberOfPeaks_lifted`) the reported set is exactly the surviving set. -/
+theorem ppCall_unbounded (k d : Nat) (shape : List Nat) (lo hi : Option Int) (vox : List Vox) (hk : vox.length ≤ k) :
+    (ppCall k d shape lo hi vox).Perm (survivors d shape lo hi vox) := by
+  unfold ppCall survivors
+  have hl : (sortDesc (vox.map (maskVox d shape))).length ≤ k := by
+    rw [(sortDesc_perm _).length_eq, List.length_map]; exact hk
+  rw [List.take_of_length_le hl]
+  exact (sortDesc_perm _).filter _
+
+/-- the reported list is ordered by descending score -/
+theorem ppCall_desc (k d : Nat) (shape : List Nat) (lo hi : Option Int) (vox : List Vox) :
+    (ppCall k d shape lo hi vox).Pairwise (fun a b => b.score ≤ a.score) := by
+  unfold ppCall
+  exact ((sortDesc_desc _).sublist (List.take_sublist _ _)).sublist List.filter_sublist
+
+/-- **Completeness under a limit**: a survivor is reported as soon as at most `k` voxels of the masked map score as high
+as it does (the limit is applied to the masked map *before* the window and range filters, as `call_peaks` does). -/
+theorem ppCall_complete (k d : Nat) (shape : List Nat) (lo hi : Option Int) (vox : List Vox) (c : Vox)
+    (hc : c ∈ survivors d shape lo hi vox)
+    (hk : ((vox.map (maskVox d shape)).filter (fun w => decide (c.score ≤ w.score))).length ≤ k) :
+    c ∈ ppCall k d shape lo hi vox := by
+  unfold survivors at hc
+  unfold ppCall
+  rw [List.mem_filter] at hc ⊢
+  refine ⟨?_, hc.2⟩
+  have hmem : c ∈ sortDesc (vox.map (maskVox d shape)) := (sortDesc_perm _).symm.subset hc.1
+  have h1 := mem_take_count_of_desc c _ (sortDesc_desc _) hmem
+  rw [filter_length_perm (sortDesc_perm _)] at h1
+  exact mem_take_mono hk h1
+
+/-- **The best reported entry is the maximum over the surviving set** (no effective limit): its score bounds every survivor's. -/
+theorem ppCall_head_is_max (k d : Nat) (shape : List Nat) (lo hi : Option Int) (vox : List Vox) (hk : vox.length ≤ k)
+    (h : Vox) (t : List Vox) (hh : ppCall k d shape lo hi vox = h :: t) :
+    h ∈ survivors d shape lo hi vox ∧ ∀ c ∈ survivors d shape lo hi vox, c.score ≤ h.score := by
+  have hp := ppCall_unbounded k d shape lo hi vox hk
+  have hd := ppCall_desc k d shape lo hi vox
+  rw [hh] at hp hd
+  refine ⟨hp.subset List.mem_cons_self, fun c hc => ?_⟩
+  rcases List.mem_cons.mp (hp.symm.subset hc) with rfl | hc
+  · exact Int.le_refl _
+  · exact (List.pairwise_cons.mp hd).1 c hc
+
+/-- something is reported iff something survives (no effective limit) -/
+theorem ppCall_nonempty_iff (k d : Nat) (shape : List Nat) (lo hi : Option Int) (vox : List Vox) (hk : vox.length ≤ k) :
+    ppCall k d shape lo hi vox ≠ [] ↔ survivors d shape lo hi vox ≠ [] := by
+  have hp := ppCall_unbounded k d shape lo hi vox hk
+  constructor
+  · intro h e; rw [e] at hp; exact h hp.eq_nil
+  · intro h e; rw [e] at hp; exact h hp.symm.eq_nil
+
+/-- the second score filter of `postprocess.main` (on the orientation list) removes nothing from a score-map result:
+what the tool writes is what the peak caller kept -/
+theorem ppMain_eq_ppCall (k d : Nat) (shape : List Nat) (lo hi : Option Int) (vox : List Vox) :
+    ppMain k d shape lo hi vox = ppCall k d shape lo hi vox := by
+  unfold ppMain scoreFilter
+  rw [List.filter_eq_self]
+  intro c hc
+  unfold ppCall survive at hc
+  rw [List.mem_filter] at hc
+  simp only [Bool.and_eq_true] at hc
+  exact hc.2.2
+
+/-- **The planted voxel through post-processing.**  If the planted voxel `p` carries a positive score (or no boundary distance
+is set), at most `k` voxels of the score map score as high, and its score is within the requested range, then the tool
+reports it **iff its own distance to every face is at least `d`**; when it is reported its score bounds every reported one
+that is not above it in the map, and it is reported with its own score (the mask does not touch it). -/
+theorem planted_reported_iff (k d : Nat) (shape : List Nat) (lo hi : Option Int) (vox : List Vox) (p : Vox)
+    (hp : p ∈ vox) (hpos : d = 0 ∨ 0 < p.score) (hr : inRange lo hi p.score = true)
+    (hk : (vox.filter (fun w => decide (p.score ≤ w.score))).length ≤ k) :
+    p ∈ ppMain k d shape lo hi vox ↔ (d = 0 ∨ inWindow d shape p.pos = true) := by
+  rw [ppMain_eq_ppCall]
+  constructor
+  · intro h
+    exact ((mem_survivors_iff d shape lo hi vox p).mp (ppCall_subset k d shape lo hi vox p h)).2.1
+  · intro hw
+    refine ppCall_complete k d shape lo hi vox p ((mem_survivors_iff d shape lo hi vox p).mpr ⟨hp, hw, hr⟩) ?_
+    rcases hpos with h0 | hs
+    · subst h0
+      have : vox.map (maskVox 0 shape) = vox := by
+        rw [List.map_congr_left (fun v _ => maskVox_zero shape v), List.map_id']
+      rw [this]; exact hk
+    · exact Nat.le_trans (filter_map_mask_le d shape p.score hs vox) hk
+
+/-- **The best entry of the orientation list is the planted voxel.**  If moreover no other voxel of the map scores as high as
+the planted one, then - whenever the planted voxel keeps the boundary distance - it is the *first* entry post-processing
+writes (the list is ordered by descending score): the pipeline's best entry is the planted position. -/
+theorem planted_is_best_entry (k d : Nat) (shape : List Nat) (lo hi : Option Int) (vox : List Vox) (p : Vox)
+    (hp : p ∈ vox) (hpos : d = 0 ∨ 0 < p.score) (hr : inRange lo hi p.score = true)
+    (hk : (vox.filter (fun w => decide (p.score ≤ w.score))).length ≤ k)
+    (huniq : ∀ c ∈ vox, p.score ≤ c.score → c = p)
+    (hw : d = 0 ∨ inWindow d shape p.pos = true) :
+    (ppMain k d shape lo hi vox).head? = some p := by
+  have hin := (planted_reported_iff k d shape lo hi vox p hp hpos hr hk).mpr hw
+  have hd := ppCall_desc k d shape lo hi vox
+  rw [← ppMain_eq_ppCall] at hd
+  cases hL : ppMain k d shape lo hi vox with
+  | nil => rw [hL] at hin; simp at hin
+  | cons h t =>
+    rw [hL] at hin hd
+    simp only [List.head?_cons, Option.some.injEq]
+    rcases List.mem_cons.mp hin with rfl | ht
+    · rfl
+    · have hle : p.score ≤ h.score := (List.pairwise_cons.mp hd).1 p ht
+      have hh : h ∈ ppCall k d shape lo hi vox := by
+        rw [← ppMain_eq_ppCall, hL]; exact List.mem_cons_self
+      have hv := ((mem_survivors_iff d shape lo hi vox h).mp (ppCall_subset k d shape lo hi vox h hh)).1
+      exact huniq h hv hle
+
+/-- outside the window nothing is ever reported at the planted position, whatever the other options -/
+theorem outside_window_never_reported (k d : Nat) (shape : List Nat) (lo hi : Option Int) (vox : List Vox) (pos : List Nat)
+    (hd : 0 < d) (hw : inWindow d shape pos = false) : ∀ c ∈ ppMain k d shape lo hi vox, c.pos ≠ pos := by
+  intro c hc e
+  rw [ppMain_eq_ppCall] at hc
+  have := ((mem_survivors_iff d shape lo hi vox c).mp (ppCall_subset k d shape lo hi vox c hc)).2.1
+  rcases this with h0 | h
+  · omega
+  · rw [e, hw] at h; exact absurd h (by decide)
+
+/-- **Flat index and voxel coordinates**: in the voxel list of a C-ordered score map the voxel with coordinates `p` carries the
+value stored at flat position `flatIdx shape p` - no axis is swapped between the array and the reported coordinates. -/
+theorem mem_voxOf (shape : List Nat) (scores : List Int) (mask : Option (List Int)) (p : List Nat)
+    (hp : inShape shape p = true) (hl : (maskedVals scores mask).length = prodL shape) :
+    ⟨p, (maskedVals scores mask).getD (flatIdx shape p) 0⟩ ∈ voxOf shape scores mask := by
+  have hlt := flatIdx_lt hp
+  have hv : voxOf shape scores mask = List.zipWith Vox.mk (allIdx shape) (maskedVals scores mask) := by
+    rfl
+  rw [hv, List.mem_iff_getElem]
+  have hlen : (List.zipWith Vox.mk (allIdx shape) (maskedVals scores mask)).length = prodL shape := by
+    simp [allIdx, hl]
+  refine ⟨flatIdx shape p, by omega, ?_⟩
+  rw [List.getElem_zipWith]
+  congr 1
+  · simp [allIdx, unflat_flatIdx hp]
+  · rw [List.getD_eq_getElem?_getD, List.getElem?_eq_getElem (by omega)]; rfl
+
+/-- and conversely every voxel of the list is a voxel of the map with the value stored at its flat position -/
+theorem voxOf_sound (shape : List Nat) (scores : List Int) (mask : Option (List Int)) (c : Vox)
+    (hc : c ∈ voxOf shape scores mask) :
+    inShape shape c.pos = true ∧ c.score = (maskedVals scores mask).getD (flatIdx shape c.pos) 0 := by
+  have hv : voxOf shape scores mask = List.zipWith Vox.mk (allIdx shape) (maskedVals scores mask) := by
+    rfl
+  rw [hv, List.mem_iff_getElem] at hc
+  obtain ⟨i, hi, rfl⟩ := hc
+  rw [List.length_zipWith] at hi
+  have hi1 : i < prodL shape := by
+    have : i < (allIdx shape).length := by omega
+    simpa [allIdx] using this
+  rw [List.getElem_zipWith]
+  have e : (allIdx shape)[i]'(by omega) = unflat shape i := by simp [allIdx]
+  simp only [e]
+  have hin := inShape_unflat shape i hi1
+  refine ⟨hin, ?_⟩
+  have hf : flatIdx shape (unflat shape i) = i := flatIdx_unflat shape i hi1
+  rw [hf, List.getD_eq_getElem?_getD, List.getElem?_eq_getElem (by omega)]; rfl
+
+/-- **The planted particle through post-processing, in array terms.**  For a C-ordered score map `scores` of shape `shape`
+(optionally multiplied by a target mask): if the planted voxel `p` holds a positive value (or no boundary distance is set), at
+most `k` voxels hold a value as high and the value is within the requested range, then `postprocess` reports position `p` with
+that value **iff `p` keeps distance `d` from every face** (`keptAt` on every axis). -/
+theorem planted_voxel_reported_iff (k d : Nat) (shape : List Nat) (lo hi : Option Int) (scores : List Int)
+    (mask : Option (List Int)) (p : List Nat) (hp : inShape shape p = true)
+    (hl : (maskedVals scores mask).length = prodL shape)
+    (hpos : d = 0 ∨ 0 < (maskedVals scores mask).getD (flatIdx shape p) 0)
+    (hr : inRange lo hi ((maskedVals scores mask).getD (flatIdx shape p) 0) = true)
+    (hk : ((voxOf shape scores mask).filter
+      (fun w => decide ((maskedVals scores mask).getD (flatIdx shape p) 0 ≤ w.score))).length ≤ k) :
+    (⟨p, (maskedVals scores mask).getD (flatIdx shape p) 0⟩ : Vox) ∈ ppMain k d shape lo hi (voxOf shape scores mask) ↔
+      (d = 0 ∨ inWindow d shape p = true) :=
+  planted_reported_iff k d shape lo hi (voxOf shape scores mask) ⟨p, _⟩ (mem_voxOf shape scores mask p hp hl) hpos hr hk
+
+/-- **In array terms: the first orientation written is the planted voxel** when its value is positive, strictly above the
+value of every other voxel of the (masked) score map, within the requested range, and the voxel keeps the boundary distance. -/
+theorem planted_voxel_is_best_entry (k d : Nat) (shape : List Nat) (lo hi : Option Int) (scores : List Int)
+    (mask : Option (List Int)) (p : List Nat) (hp : inShape shape p = true)
+    (hl : (maskedVals scores mask).length = prodL shape)
+    (hpos : d = 0 ∨ 0 < (maskedVals scores mask).getD (flatIdx shape p) 0)
+    (hr : inRange lo hi ((maskedVals scores mask).getD (flatIdx shape p) 0) = true)
+    (hk : ((voxOf shape scores mask).filter
+      (fun w => decide ((maskedVals scores mask).getD (flatIdx shape p) 0 ≤ w.score))).length ≤ k)
+    (hmax : ∀ q, inShape shape q = true → q ≠ p →
+      (maskedVals scores mask).getD (flatIdx shape q) 0 < (maskedVals scores mask).getD (flatIdx shape p) 0)
+    (hw : d = 0 ∨ inWindow d shape p = true) :
+    (ppMain k d shape lo hi (voxOf shape scores mask)).head? =
+      some ⟨p, (maskedVals scores mask).getD (flatIdx shape p) 0⟩ := by
+  refine planted_is_best_entry k d shape lo hi (voxOf shape scores mask) ⟨p, _⟩
+    (mem_voxOf shape scores mask p hp hl) hpos hr hk ?_ hw
+  intro c hc hle
+  obtain ⟨hin, hsc⟩ := voxOf_sound shape scores mask c hc
+  by_cases hq : c.pos = p
+  · cases c with
+    | mk pos score =>
+      simp only at hq hsc
+      subst hq
+      rw [hsc]
+  · have := hmax c.pos hin hq
+    simp only at hle
+    omega
+
+/-- **The pipeline's best entry, in array terms, without side conditions on the limit**: for any limit `k ≥ 1` on the number of
+peaks, if the planted voxel `p` of a C-ordered (masked) score map holds a positive value that is strictly above every other
+voxel's and within the requested score range, then the first orientation `postprocess` writes is `p` with that value whenever
+`p` keeps the boundary distance from every face - and `p` is not reported at all when it does not
+(`outside_window_never_reported`). -/
+theorem planted_voxel_first (k d : Nat) (shape : List Nat) (lo hi : Option Int) (scores : List Int)
+    (mask : Option (List Int)) (p : List Nat) (hk : 1 ≤ k) (hp : inShape shape p = true)
+    (hl : (maskedVals scores mask).length = prodL shape)
+    (hpos : d = 0 ∨ 0 < (maskedVals scores mask).getD (flatIdx shape p) 0)
+    (hr : inRange lo hi ((maskedVals scores mask).getD (flatIdx shape p) 0) = true)
+    (hmax : ∀ q, inShape shape q = true → q ≠ p →
+      (maskedVals scores mask).getD (flatIdx shape q) 0 < (maskedVals scores mask).getD (flatIdx shape p) 0)
+    (hw : d = 0 ∨ inWindow d shape p = true) :
+    (ppMain k d shape lo hi (voxOf shape scores mask)).head? =
+      some ⟨p, (maskedVals scores mask).getD (flatIdx shape p) 0⟩ := by
+  refine planted_voxel_is_best_entry k d shape lo hi scores mask p hp hl hpos hr ?_ hmax hw
+  refine Nat.le_trans (length_le_one_of_nodup_all_eq ⟨p, (maskedVals scores mask).getD (flatIdx shape p) 0⟩ _ ?_ ?_) hk
+  · have hv : voxOf shape scores mask = List.zipWith Vox.mk (allIdx shape) (maskedVals scores mask) := by
+      rfl
+    rw [hv]
+    exact (zipWith_vox_nodup _ _ (allIdx_nodup shape)).filter _
+  · intro c hc
+    rw [List.mem_filter] at hc
+    obtain ⟨hcv, hle⟩ := hc
+    simp only [decide_eq_true_eq] at hle
+    obtain ⟨hin, hsc⟩ := voxOf_sound shape scores mask c hcv
+    by_cases hq : c.pos = p
+    · cases c with
+      | mk pos score =>
+        simp only at hq hsc
+        subst hq
+        rw [hsc]
+    · have := hmax c.pos hin hq
+      omega
+
+example : (⟨[1, 2], 7⟩ : Vox) ∈ ppMain 1 1 [3, 4] none none (voxOf [3, 4] [0, 1, 2, 3, 4, 5, 7, 6, 1, 1, 1, 1] none) := by decide
+example : (ppMain 3 1 [3, 4] none none (voxOf [3, 4] [0, 1, 2, 3, 4, 5, 7, 6, 1, 1, 1, 1] none)).head? = some ⟨[1, 2], 7⟩ := by decide
+
+/-- **Witness of an order dependence in the tool**: the limit on the number of peaks is applied to the masked map before
+the window filter, so a map whose inside scores are all negative loses its (only) survivor to a zeroed border voxel:
+something survives, nothing is reported. -/
+theorem limit_before_window_current_quirk :
+    survivors 1 [3] none none [⟨[0], -5⟩, ⟨[1], -2⟩, ⟨[2], -7⟩] = [⟨[1], -2⟩] ∧
+    ppMain 1 1 [3] none none [⟨[0], -5⟩, ⟨[1], -2⟩, ⟨[2], -7⟩] = [] := by decide
+
+/-- the same for `--maximum_score`: voxels above the maximum use up the limit -/
+theorem limit_before_maximum_current_quirk :
+    survivors 0 [3] none (some 4) [⟨[0], 9⟩, ⟨[1], 3⟩, ⟨[2], 8⟩] = [⟨[1], 3⟩] ∧
+    ppMain 2 0 [3] none (some 4) [⟨[0], 9⟩, ⟨[1], 3⟩, ⟨[2], 8⟩] = [] := by decide
+
+/-- a peak-list result passes through the score filter alone: exactly the candidates in range, in their order -/
+theorem mem_scoreFilter_iff (lo hi : Option Int) (l : List Vox) (c : Vox) :
+    c ∈ scoreFilter lo hi l ↔ c ∈ l ∧ inRange lo hi c.score = true := by
+  unfold scoreFilter; rw [List.mem_filter]
+
+/-- the score range is the closed interval -/
+theorem inRange_iff (lo hi : Int) (s : Int) : inRange (some lo) (some hi) s = true ↔ lo ≤ s ∧ s ≤ hi := by
+  simp [inRange]
+
+theorem inRange_none (s : Int) : inRange none none s = true := rfl
+
+/-- **`--minimum_score` (or `--n_false_positives`) lifts the limit on the number of peaks** beyond any array numpy can hold,
+so `ppCall_unbounded` applies: every voxel in window and range is reported -/
+theorem ppNumberOfPeaks_lifted (hasMin hasNfp : Bool) (n : Option Nat) (h : hasMin = true ∨ hasNfp = true) :
+    ppNumberOfPeaks hasMin hasNfp n = 2 ^ 63 - 1 := by
+  unfold ppNumberOfPeaks int64Max
+  rcases h with h | h <;> simp [h]
+
+/-- otherwise the limit is the one given, 1000 by default -/
+theorem ppNumberOfPeaks_given (n : Option Nat) : ppNumberOfPeaks false false n = n.getD 1000 := by
+  cases n <;> rfl
+
+/-- **`--background_file`**: whenever the arguments are accepted there is one (possibly absent) background per input file, so
+`background_file[index]` is defined for every input; given once it is the same file for every input; absent it is `None`
+for every input -/
+theorem ppBackground_length (bg : Option (List String)) (n : Nat) (l : List (Option String))
+    (hne : bg ≠ some []) (h : ppBackground bg n = .ok l) : l.length = n := by
+  have hb : bgList bg ≠ [] := by
+    cases bg with
+    | none => simp [bgList]
+    | some b => simpa [bgList] using hne
+  unfold ppBackground at h
+  generalize bgList bg = l' at h hb
+  match l', hb with
+  | [x], _ => simp only [Except.ok.injEq] at h; rw [← h, List.length_replicate]
+  | x :: y :: r, _ =>
+    simp only [List.length_cons] at h
+    split at h
+    · rename_i hc
+      simp only [Except.ok.injEq] at h
+      subst h
+      simp only [Bool.or_eq_true, beq_iff_eq] at hc
+      rcases hc with h0 | hn
+      · omega
+      · simpa using hn
+    · cases h
+
+theorem ppBackground_absent (n : Nat) : ppBackground none n = .ok (List.replicate n none) := rfl
+
+theorem ppBackground_once (f : String) (n : Nat) : ppBackground (some [f]) n = .ok (List.replicate n (some f)) := rfl
+
+/-- the RELION box size is made even -/
+theorem relionBox_even (n : Nat) : relionBox n % 2 = 0 ∧ n ≤ relionBox n ∧ relionBox n ≤ n + 1 := by
+  unfold relionBox; omega
+
+example : effDist true 0 [5, 8, 6] = 4 ∧ effDist true 3 [5, 8, 6] = 3 ∧ effDist false 0 [5, 8, 6] = 0 := by decide
+example : inWindow 2 [10, 8] [2, 5] = true ∧ inWindow 2 [10, 8] [2, 6] = false ∧ borderDist [10, 8] [2, 5] = some 2 := by decide
+example : ppMain 2 1 [4] (some 2) none (voxOf [4] [9, 3, 5, 8] none) = [⟨[2], 5⟩, ⟨[1], 3⟩] := by decide
+example : ppMain 2 1 [4] (some 2) none (voxOf [4] [9, 3, 5, 8] (some [1, 1, 0, 1])) = [⟨[1], 3⟩] := by decide
+example : ppBackground (some ["a", "b"]) 2 = .ok [some "a", some "b"] ∧ ppBackground (some ["a", "b"]) 3 = .error "ValueError" := by decide
+example : ppNumberOfPeaks true false (some 5) = 9223372036854775807 ∧ ppNumberOfPeaks false false (some 5) = 5 := by decide
+
+
+/-! ## The result tuple: writer (`match_template.main`) and reader (`postprocess.main`) agree -/
+
+/-- **Reader and writer agree on the layout of the result tuple**, for targets of any rank `D`: the reader's test
+`data[0].ndim == data[2].ndim` recognises a score-map result exactly when the writer did not call peaks, the names the
+reader then gives to the positions are the members the writer put there, and the metadata record is the last member
+(`data[-1]`) in both layouts. -/
+theorem reader_writer_agree (D : Nat) (peakCalling : Bool) :
+    readerIsScoreMap D (writerLayout peakCalling) = !peakCalling ∧
+    readerNames (readerIsScoreMap D (writerLayout peakCalling)) = writerLayout peakCalling ∧
+    (writerLayout peakCalling).getLast? = some Member.info ∧ (writerLayout peakCalling).length = 5 := by
+  cases peakCalling <;> simp [writerLayout, readerIsScoreMap, readerNames, memberNdim]
+
+/-- the positions `postprocess.main` reads from a peak-list result (`candidates[0], candidates[2], candidates[3]`) are the
+translations, scores and details the peak caller's tuple has there -/
+theorem reader_peak_positions :
+    (writerLayout true)[0]? = some Member.translations ∧ (writerLayout true)[1]? = some Member.peakRotations ∧
+    (writerLayout true)[2]? = some Member.peakScores ∧ (writerLayout true)[3]? = some Member.details := by decide
+
+/-! ## The decision logic of `scripts/match_template.py` -/
+
+/-- **`parse_rotation_logic` is total and exactly one branch applies**: the identity alone iff `-a` is given and at least
+180 degrees; the sampled grid iff `-a` is given and below 180; the cone iff `-a` is absent. -/
+theorem rotPlan_identity_iff (a : RotArgs) :
+    (∃ s o, rotPlan a = .identity s o) ↔ ∃ s, a.angular = some s ∧ 180000 ≤ s := by
+  unfold rotPlan
+  cases h : a.angular with
+  | none => simp
+  | some s => by_cases hs : 180000 ≤ s <;> simp [hs]
+
+theorem rotPlan_grid_iff (a : RotArgs) :
+    (∃ s o, rotPlan a = .grid s o) ↔ ∃ s, a.angular = some s ∧ s < 180000 := by
+  unfold rotPlan
+  cases h : a.angular with
+  | none => simp
+  | some s =>
+    by_cases hs : 180000 ≤ s
+    · simp [hs]
+    · simp [hs]; omega
+
+theorem rotPlan_cone_iff (a : RotArgs) :
+    (∃ ca cs aa as n, rotPlan a = .cone ca cs aa as n) ↔ a.angular = none := by
+  unfold rotPlan
+  cases h : a.angular with
+  | none => simp
+  | some s => by_cases hs : 180000 ≤ s <;> simp [hs]
+
+/-- the arguments each branch hands to the library: the sampling value unchanged, the optimised sets unless
+`--no_use_optimized_set`; in the cone branch `--axis_sampling` defaults to `--cone_sampling` and is otherwise kept -/
+theorem rotPlan_args (a : RotArgs) :
+    (∀ s, a.angular = some s → s < 180000 → rotPlan a = .grid s (!a.noOptimized)) ∧
+    (∀ s, a.angular = some s → 180000 ≤ s → rotPlan a = .identity s (!a.noOptimized)) ∧
+    (a.angular = none → a.axisSampling = none →
+      rotPlan a = .cone a.coneAngle a.coneSampling a.axisAngle a.coneSampling a.axisSymmetry) ∧
+    (∀ x, a.angular = none → a.axisSampling = some x →
+      rotPlan a = .cone a.coneAngle a.coneSampling a.axisAngle (some x) a.axisSymmetry) := by
+  refine ⟨?_, ?_, ?_, ?_⟩
+  · intro s h hs; unfold rotPlan; rw [h]; simp; omega
+  · intro s h hs; unfold rotPlan; rw [h]; simp [hs]
+  · intro h h2; unfold rotPlan; rw [h, h2]; rfl
+  · intro x h h2; unfold rotPlan; rw [h, h2]; rfl
+
+/-- the side effect on the argument namespace does not change the plan (a second call decides the same) and is idempotent -/
+theorem rotPlan_after (a : RotArgs) :
+    rotPlan (rotArgsAfter a) = rotPlan a ∧ rotArgsAfter (rotArgsAfter a) = rotArgsAfter a := by
+  unfold rotArgsAfter rotPlan
+  cases h : a.angular with
+  | some s => simp [h]
+  | none =>
+    cases h2 : a.axisSampling <;> cases h3 : a.coneSampling <;> simp [optOr]
+
+/-- **`compute_schedule` asks the library once or twice**, always with the template box (or zeros without `--pad_fourier`)
+as second shape -/
+theorem schedule_calls (cps : SchedCall → SchedAns) (tmpl : List Nat) (pf pe : Bool) :
+    ((schedule cps tmpl pf pe).calls.length = 1 ∨ (schedule cps tmpl pf pe).calls.length = 2) ∧
+    (∀ c ∈ (schedule cps tmpl pf pe).calls, c.box = if pf then tmpl else zerosLike tmpl) ∧
+    (schedule cps tmpl pf pe).calls.head? = some (schedCall tmpl pf pe) := by
+  unfold schedule
+  cases cps (schedCall tmpl pf pe) with
+  | none => simp [scheduleOn, schedCall]
+  | some r =>
+    obtain ⟨splits, sch⟩ := r
+    by_cases hc : (!pe && decide (1 < prodL splits)) = true <;> simp [scheduleOn, hc, schedCall]
+
+/-- **A split target is always searched with padded edges**: whenever the schedule that is returned splits the target,
+`args.pad_edges` is on when `compute_schedule` returns and the returned schedule is the library's answer for a target padding
+equal to the template box (the condition under which C02's tiles reproduce the unsplit scores). -/
+theorem schedule_split_implies_padded (cps : SchedCall → SchedAns) (tmpl : List Nat) (pf pe : Bool)
+    (splits : List Nat) (sch : Nat × Nat)
+    (hr : (schedule cps tmpl pf pe).result = some (splits, sch)) (hs : 1 < prodL splits) :
+    (schedule cps tmpl pf pe).padEdgesAfter = true ∧
+    cps ⟨if pf then tmpl else zerosLike tmpl, tmpl⟩ = some (splits, sch) ∧
+    (schedule cps tmpl pf pe).calls.getLast? = some ⟨if pf then tmpl else zerosLike tmpl, tmpl⟩ := by
+  unfold schedule at hr ⊢
+  cases h : cps (schedCall tmpl pf pe) with
+  | none => rw [h] at hr; simp [scheduleOn] at hr
+  | some r =>
+    obtain ⟨sp1, sc1⟩ := r
+    rw [h] at hr
+    by_cases hc : (!pe && decide (1 < prodL sp1)) = true
+    · simp only [scheduleOn, hc, if_true] at hr ⊢
+      refine ⟨by simp, ?_, ?_⟩
+      · simpa [schedCall] using hr
+      · simp [schedCall]
+    · simp only [scheduleOn, hc] at hr ⊢
+      simp only [Bool.false_eq_true, if_false, Option.some.injEq, Prod.mk.injEq] at hr
+      obtain ⟨rfl, rfl⟩ := hr
+      have hpe : pe = true := by
+        cases pe
+        · simp [hs] at hc
+        · rfl
+      subst hpe
+      refine ⟨rfl, ?_, ?_⟩
+      · simpa [schedCall] using h
+      · simp [schedCall]
+
+/-- with `--pad_edges` given the library is asked once and its answer is returned as it is -/
+theorem schedule_user_padding (cps : SchedCall → SchedAns) (tmpl : List Nat) (pf : Bool) :
+    schedule cps tmpl pf true = ⟨[schedCall tmpl pf true], cps (schedCall tmpl pf true), true⟩ := by
+  unfold schedule
+  cases cps (schedCall tmpl pf true) with
+  | none => rfl
+  | some r => obtain ⟨a, b⟩ := r; simp [scheduleOn]
+
+/-- an unsplit first answer is returned as it is and the flag is left alone -/
+theorem schedule_unsplit (cps : SchedCall → SchedAns) (tmpl : List Nat) (pf pe : Bool) (splits : List Nat) (sch : Nat × Nat)
+    (h : cps (schedCall tmpl pf pe) = some (splits, sch)) (hs : prodL splits ≤ 1) :
+    schedule cps tmpl pf pe = ⟨[schedCall tmpl pf pe], some (splits, sch), pe⟩ := by
+  unfold schedule
+  rw [h]
+  have : ¬ 1 < prodL splits := by omega
+  simp [scheduleOn, this]
+
+/-- `exit(-1)` happens exactly when the last answer of the library is "no schedule" -/
+theorem schedule_exit_iff (cps : SchedCall → SchedAns) (tmpl : List Nat) (pf pe : Bool) :
+    (schedule cps tmpl pf pe).result = none ↔
+      ∃ c, (schedule cps tmpl pf pe).calls.getLast? = some c ∧ cps c = none := by
+  unfold schedule
+  cases h : cps (schedCall tmpl pf pe) with
+  | none => simp [scheduleOn, h]
+  | some r =>
+    obtain ⟨sp1, sc1⟩ := r
+    by_cases hc : (!pe && decide (1 < prodL sp1)) = true
+    · simp [scheduleOn, hc]
+    · simp [scheduleOn, hc, h]
+
+/-- **Witness**: the second answer (with padding) need not split at all - the search then runs unsplit, but with the padded
+edges the first answer asked for (`args.pad_edges` stays on) -/
+theorem schedule_second_answer_current_quirk :
+    schedule (fun c => if c.padding = [0, 0] then some ([2, 1], (2, 1)) else some ([1, 1], (1, 2))) [4, 4] true false =
+      ⟨[⟨[4, 4], [0, 0]⟩, ⟨[4, 4], [4, 4]⟩], some ([1, 1], (1, 2)), true⟩ := by decide
+
+/-- what `main` hands to `scan_subsets`: target edges are padded iff the user asked for it or the first schedule split the
+target; the other flags are passed through; the template is centred unless `--no_centering` -/
+theorem scanFlags_spec (pe pf pfl nc : Bool) (cps : SchedCall → SchedAns) (tmpl tshape : List Nat) :
+    (scanFlags pe pf pfl nc cps tmpl tshape).padFourier = pf ∧ (scanFlags pe pf pfl nc cps tmpl tshape).padTemplateFilter = pfl ∧
+    (scanFlags pe pf pfl nc cps tmpl tshape).centre = (!nc) ∧ (scanFlags pe pf pfl nc cps tmpl tshape).minDistance = maxL tshape / 3 ∧
+    ((scanFlags pe pf pfl nc cps tmpl tshape).padTargetEdges = true ↔
+      pe = true ∨ ∃ sp sc, cps (schedCall tmpl pf false) = some (sp, sc) ∧ 1 < prodL sp) := by
+  refine ⟨rfl, rfl, rfl, rfl, ?_⟩
+  simp only [scanFlags]
+  cases pe with
+  | true => rw [schedule_user_padding]; simp
+  | false =>
+    unfold schedule
+    cases cps (schedCall tmpl pf false) with
+    | none => simp [scheduleOn]
+    | some r =>
+      obtain ⟨sp1, sc1⟩ := r
+      by_cases hc : 1 < prodL sp1 <;> simp [scheduleOn, hc]
+
+/-- **A search that runs split always pads the target edges** (`scan_subsets(pad_target_edges=True)`): the composition of the
+schedule with what `main` passes on -/
+theorem split_search_pads_edges (pe pf pfl nc : Bool) (cps : SchedCall → SchedAns) (tmpl tshape : List Nat)
+    (splits : List Nat) (sch : Nat × Nat)
+    (hr : (schedule cps tmpl pf pe).result = some (splits, sch)) (hs : 1 < prodL splits) :
+    (scanFlags pe pf pfl nc cps tmpl tshape).padTargetEdges = true :=
+  (schedule_split_implies_padded cps tmpl pf pe splits sch hr hs).1
+
+/-- the target mask is multiplied into the score map exactly for score-map output of every score but MCC (which consumed
+the mask itself); the analyzer is the peak caller iff `-p` -/
+theorem maskApplied_iff (pc tm mcc : Bool) :
+    maskApplied pc tm mcc = true ↔ pc = false ∧ tm = true ∧ mcc = false := by
+  cases pc <;> cases tm <;> cases mcc <;> decide
+
+theorem callbackName_spec : callbackName true = "PeakCallerMaximumFilter" ∧ callbackName false = "MaxScoreOverRotations" := by
+  decide
+
+/-- **`numpy.allclose` on shapes is exact equality for every axis shorter than 100000 voxels** (and on sampling rates
+rounded to two decimals for every rate below 999.99) -/
+theorem closeQ_exact (scale : Nat) (a b : Int) (hb : 1000 * b.natAbs + scale < 100000000) :
+    closeQ scale a b = true ↔ a = b := by
+  unfold closeQ
+  simp only [decide_eq_true_eq]
+  constructor
+  · intro h
+    by_contra hne
+    have : 1 ≤ (a - b).natAbs := by omega
+    omega
+  · rintro rfl; simp
+
+/-- **Witness**: beyond that size the tolerance is wider than a voxel - a mask one voxel longer passes the shape check -/
+theorem closeQ_current_quirk : closeQ 1 100001 100000 = true ∧ closeQ 1 100000 99999 = false := by decide
+
+/-- **`load_and_validate_mask`** for a mask of the target's rank (`k` axes each, extents below 100000, rates below 999.99):
+accepted iff the shapes are equal and the sampling rates agree after rounding to two decimals; a shape mismatch is
+reported before a sampling-rate mismatch; without a path nothing is checked -/
+theorem maskCheck_no_path (ms ts mr tr : List Int) : maskCheck false ms ts mr tr = .noMask := rfl
+
+theorem all2_closeQ_exact (scale : Nat) : ∀ (a b : List Int), a.length = b.length →
+    (∀ y ∈ b, 1000 * y.natAbs + scale < 100000000) → (all2 (closeQ scale) a b = true ↔ a = b)
+  | [], [], _, _ => by simp [all2]
+  | [], _ :: _, h, _ => by simp at h
+  | _ :: _, [], h, _ => by simp at h
+  | x :: xs, y :: ys, h, hb => by
+    have ih := all2_closeQ_exact scale xs ys (by simpa using h) (fun z hz => hb z (List.mem_cons_of_mem _ hz))
+    simp only [all2, Bool.and_eq_true, ih, closeQ_exact scale x y (hb y List.mem_cons_self), List.cons.injEq]
+
+theorem maskCheck_same_rank (ms ts mr tr : List Int) (h1 : ms.length = ts.length) (h2 : mr.length = tr.length)
+    (hts : ∀ y ∈ ts, 1000 * y.natAbs + 1 < 100000000)
+    (htr : ∀ y ∈ tr.map roundCenti, 1000 * y.natAbs + 100 < 100000000) :
+    (maskCheck true ms ts mr tr = .ok ↔ ms = ts ∧ mr.map roundCenti = tr.map roundCenti) ∧
+    (maskCheck true ms ts mr tr = .shapeMismatch ↔ ms ≠ ts) ∧
+    (maskCheck true ms ts mr tr = .samplingMismatch ↔ ms = ts ∧ mr.map roundCenti ≠ tr.map roundCenti) := by
+  have e1 := all2_closeQ_exact 1 ms ts h1 hts
+  have e2 := all2_closeQ_exact 100 (mr.map roundCenti) (tr.map roundCenti) (by simp [h2]) htr
+  unfold maskCheck allcloseL
+  simp only [Bool.not_true, Bool.false_eq_true, if_false, h1, beq_self_eq_true, if_true, List.length_map, h2]
+  by_cases hs : ms = ts
+  · have : all2 (closeQ 1) ms ts = true := e1.mpr hs
+    rw [this]
+    by_cases hr : mr.map roundCenti = tr.map roundCenti
+    · have : all2 (closeQ 100) (mr.map roundCenti) (tr.map roundCenti) = true := e2.mpr hr
+      rw [this]; simp [hs, hr]
+    · have : all2 (closeQ 100) (mr.map roundCenti) (tr.map roundCenti) = false := by
+        cases hx : all2 (closeQ 100) (mr.map roundCenti) (tr.map roundCenti)
+        · rfl
+        · exact absurd (e2.mp hx) hr
+      rw [this]; simp [hs, hr]
+  · have : all2 (closeQ 1) ms ts = false := by
+      cases hx : all2 (closeQ 1) ms ts
+      · rfl
+      · exact absurd (e1.mp hx) hs
+    rw [this]; simp [hs]
+
+/-- **Witness**: numpy's broadcasting inside the shape check accepts a one-dimensional mask for a cubic target -/
+theorem maskCheck_broadcast_current_quirk :
+    maskCheck true [5] [5, 5, 5] [1000] [1000, 1000, 1000] = .ok ∧
+    maskCheck true [5, 5] [5, 5, 5] [1000, 1000] [1000, 1000, 1000] = .broadcastError := by decide
+
+/-- rounding to two decimals: the result is within half a hundredth, ties go to the even hundredth -/
+theorem roundCenti_spec (m : Int) :
+    (10 * roundCenti m - m ≤ 5 ∧ m - 10 * roundCenti m ≤ 5) ∧
+    (m % 10 = 5 → roundCenti m % 2 = 0) ∧ (m % 10 = 0 → 10 * roundCenti m = m) := by
+  unfold roundCenti
+  refine ⟨?_, ?_, ?_⟩
+  · simp only
+    split
+    · omega
+    · split
+      · omega
+      · split <;> omega
+  · intro h
+    simp only [h]
+    simp only [show ¬ (5 : Int) < 5 by omega, if_false, beq_iff_eq]
+    split <;> omega
+  · intro h
+    simp only [h]
+    simp only [show (0 : Int) < 5 by omega, if_true]
+    omega
+
+/-- the cross-option checks of `match_template.parse_args`: accepted iff (`--tilt_angles` implies `--wedge_axes` and a file
+or a number) and (`--ctf_file` implies `--tilt_angles`) -/
+theorem mtValidate_ok_iff (ht tf tn hw hc : Bool) :
+    mtValidate ht tf tn hw hc = .ok ↔
+      (ht = true → hw = true ∧ (tf = true ∨ tn = true)) ∧ (hc = true → ht = true) := by
+  cases ht <;> cases tf <;> cases tn <;> cases hw <;> cases hc <;> decide
+
+/-- a negative `--interpolation_order` means "library default", anything else is passed on -/
+theorem mtInterpolation_spec (o : Int) : (o < 0 → mtInterpolation o = none) ∧ (0 ≤ o → mtInterpolation o = some o) := by
+  unfold mtInterpolation
+  constructor <;> intro h <;> simp <;> omega
+
+example : rotPlan ⟨some 200000, false, none, none, 360000, none, 1000⟩ = .identity 200000 true := by decide
+example : rotPlan ⟨some 60000, true, none, none, 360000, none, 1000⟩ = .grid 60000 false := by decide
+example : rotPlan ⟨none, false, some 30000, some 10000, 360000, none, 1000⟩ =
+    .cone (some 30000) (some 10000) 360000 (some 10000) 1000 := by decide
+example : schedule (fun c => if c.padding = [0, 0] then some ([2, 1], (2, 1)) else some ([2, 2], (4, 1))) [4, 6] false false =
+    ⟨[⟨[0, 0], [0, 0]⟩, ⟨[0, 0], [4, 6]⟩], some ([2, 2], (4, 1)), true⟩ := by decide
+example : maskCheck true [6, 5, 4] [6, 5, 4] [1125, 1125, 1125] [1120, 1120, 1120] = .ok ∧
+    maskCheck true [6, 5, 4] [6, 5, 4] [1375, 1375, 1375] [1370, 1370, 1370] = .samplingMismatch ∧
+    maskCheck true [6, 5, 4] [6, 4, 5] [1375, 1375, 1375] [1370, 1370, 1370] = .shapeMismatch := by decide
+example : roundCenti 1125 = 112 ∧ roundCenti 1375 = 138 ∧ roundCenti 1126 = 113 ∧ roundCenti 1124 = 112 := by decide
+example : mtValidate true false true true true = .ok ∧ mtValidate true false false true false = .tiltNeitherFileNorRange ∧
+    mtValidate false false false false true = .needTiltAngles ∧ mtValidate true true false false false = .needWedgeAxes := by decide
+
+
+/-! ## Backend selection (`match_template.main`) -/
+
+/-- **Whatever is chosen is importable, admitted by the options and - when `--backend` is given - the requested one** -/
+theorem selectBackend_chosen (available : List String) (req : Option String) (g m pc : Bool) (n : String) (dev : Option String)
+    (h : selectBackend available req g m pc = .chosen n dev) :
+    n ∈ available ∧ n ∈ beSelection g m ∧ n ∈ bePreference g ∧ (∀ r, req = some r → n = r) ∧
+    (dev = if n = "pytorch" then some (if g then "cuda" else "cpu") else none) := by
+  unfold selectBackend at h
+  cases hc : candidateBackends available req g m pc with
+  | none => rw [hc] at h; cases h
+  | some av =>
+    rw [hc] at h
+    simp only at h
+    cases hf : (bePreference g).find? av.contains with
+    | none => rw [hf] at h; cases h
+    | some p =>
+      rw [hf] at h
+      simp only [BackendChoice.chosen.injEq] at h
+      obtain ⟨rfl, hdev⟩ := h
+      have hp_pref : p ∈ bePreference g := List.mem_of_find?_eq_some hf
+      have hp_av : p ∈ av := by
+        have := List.find?_some hf
+        simpa using this
+      -- every candidate is importable, admitted, and the requested one
+      have hcand : ∀ x ∈ av, x ∈ available ∧ x ∈ beSelection g m ∧ (∀ r, req = some r → x = r) := by
+        intro x hx
+        unfold candidateBackends at hc
+        cases req with
+        | none =>
+          simp only [Option.map_some, Option.some.injEq] at hc
+          subst hc
+          have hx' : x ∈ available.filter (beSelection g m).contains := by
+            by_cases hpc : pc = true
+            · simp only [hpc, if_true] at hx
+              split at hx
+              · rename_i hcond
+                simp only [List.mem_singleton] at hx
+                subst hx
+                simp only [Bool.and_eq_true] at hcond
+                have := hcond.2
+                rw [List.contains_iff_mem] at this
+                exact (List.mem_filter.mp this).1
+              · exact (List.mem_filter.mp hx).1
+            · simp only [hpc] at hx
+              exact hx
+          have := List.mem_filter.mp hx'
+          exact ⟨this.1, by simpa using this.2, fun r hr => by cases hr⟩
+        | some r =>
+          by_cases hr : available.contains r = true
+          · simp only [hr, if_true, Option.map_some, Option.some.injEq] at hc
+            subst hc
+            have hx' : x ∈ [r].filter (beSelection g m).contains := by
+              by_cases hpc : pc = true
+              · simp only [hpc, if_true] at hx
+                split at hx
+                · rename_i hcond
+                  simp only [List.mem_singleton] at hx
+                  subst hx
+                  simp only [Bool.and_eq_true] at hcond
+                  have := hcond.2
+                  rw [List.contains_iff_mem] at this
+                  exact (List.mem_filter.mp this).1
+                · exact (List.mem_filter.mp hx).1
+              · simp only [hpc] at hx
+                exact hx
+            have := List.mem_filter.mp hx'
+            have hxr : x = r := by simpa using this.1
+            subst hxr
+            exact ⟨by simpa using hr, by simpa using this.2, fun r' hr' => by cases hr'; rfl⟩
+          · rw [Bool.not_eq_true] at hr
+            simp only [hr, Bool.false_eq_true, if_false, Option.map_none] at hc
+            cases hc
+      obtain ⟨h1, h2, h3⟩ := hcand p hp_av
+      refine ⟨h1, h2, hp_pref, h3, ?_⟩
+      rw [← hdev]
+      simp
+
+/-- on a CPU installation (`numpyfftw` importable) without further options the FFTW backend is chosen -/
+theorem selectBackend_default (available : List String) (pc : Bool) (h : "numpyfftw" ∈ available) :
+    selectBackend available none false false pc = .chosen "numpyfftw" none := by
+  have hc : ∃ av, candidateBackends available none false false pc = some av ∧ "numpyfftw" ∈ av := by
+    unfold candidateBackends
+    have hm : "numpyfftw" ∈ available.filter (beSelection false false).contains := by
+      rw [List.mem_filter]; exact ⟨h, by decide⟩
+    cases pc
+    · exact ⟨_, rfl, hm⟩
+    · refine ⟨_, rfl, ?_⟩
+      simp only [Bool.false_and, Bool.false_eq_true, if_false, if_true]
+      rw [List.mem_filter]; exact ⟨hm, by decide⟩
+  obtain ⟨av, hav, hin⟩ := hc
+  have : (bePreference false).find? av.contains = some "numpyfftw" := by
+    simp [bePreference, hin]
+  simp only [selectBackend, hav, this]
+  rfl
+
+/-- with `--use_gpu` the CPU-only backends are never chosen -/
+theorem selectBackend_gpu (available : List String) (req : Option String) (m pc : Bool) (n : String) (dev : Option String)
+    (h : selectBackend available req true m pc = .chosen n dev) : n ≠ "numpyfftw" ∧ n ≠ "mlx" := by
+  have := (selectBackend_chosen available req true m pc n dev h).2.2.1
+  simp only [bePreference, if_true, List.mem_cons, List.mem_nil_iff, or_false] at this
+  rcases this with rfl | rfl | rfl <;> decide
+
+/-- **Witness**: a requested backend the other options do not admit is silently ignored - `--backend cupy` without `--use_gpu`
+leaves the backend as it was (the search then runs on the default backend) -/
+theorem selectBackend_ignored_current_quirk :
+    selectBackend ["numpyfftw", "cupy"] (some "cupy") false false false = .unchanged := by decide
+
+example : selectBackend ["numpyfftw", "pytorch", "jax"] none true false true = .chosen "pytorch" (some "cuda") ∧
+    selectBackend ["numpyfftw", "pytorch", "jax"] none false true false = .chosen "numpyfftw" none ∧
+    selectBackend ["numpyfftw", "jax"] (some "mlx") false false false = .rejected ∧
+    backendInterpolation (.chosen "pytorch" (some "cpu")) (some 3) = some 1 := by decide
+
+/-! ## Background subtraction (`postprocess.load_match_template_output`) -/
+
+/-- **A background-normalised score is never negative** and is a proper fraction (or `+inf` where the background score is
+exactly 1) -/
+theorem bgNorm_nonneg (fg bg : Int × Nat) (n : Int) (d : Nat) (h : bgNorm fg bg = .fin n d) :
+    0 ≤ n ∧ 0 < d := by
+  unfold bgNorm at h
+  simp only at h
+  split at h
+  · split at h
+    · cases h
+    · injection h with h1 h2; omega
+  · rename_i hden
+    have hden' : (fg.2 : Int) * ((bg.2 : Int) - bg.1) ≠ 0 := by simpa using hden
+    split at h
+    · split at h
+      · injection h with h1 h2; omega
+      · injection h with h1 h2; omega
+    · split at h
+      · injection h with h1 h2; omega
+      · injection h with h1 h2; omega
+
+/-- **Without a background signal (`bg = 0`) the score is the foreground score clipped at 0** -/
+theorem bgNorm_no_background (a : Int) (b e : Nat) (hb : 0 < b) (he : 0 < e) :
+    ∃ n d, bgNorm (a, b) (0, e) = .fin n d ∧ 0 < d ∧ n * (b : Int) = max a 0 * (d : Int) := by
+  have hpos : (0 : Int) < (b : Int) * (e : Int) := Int.mul_pos (by omega) (by omega)
+  have h1 : ((b : Int) * (e : Int) == 0) = false := by
+    rw [beq_eq_false_iff_ne]; omega
+  have h2 : ¬ (b : Int) * (e : Int) < 0 := by omega
+  unfold bgNorm
+  simp only [Int.zero_mul, Int.sub_zero, h1, h2, Bool.false_eq_true, if_false]
+  by_cases ha : a * (e : Int) ≤ 0
+  · refine ⟨0, 1, by simp [ha], by omega, ?_⟩
+    have : a ≤ 0 := by
+      by_contra h
+      have : 0 < a * (e : Int) := Int.mul_pos (by omega) (by omega)
+      omega
+    simp [Int.max_eq_right this]
+  · refine ⟨a * e, ((b : Int) * e).toNat, by simp [ha], by omega, ?_⟩
+    have ha' : 0 ≤ a := by
+      by_contra h
+      have : a * (e : Int) < 0 := Int.mul_neg_of_neg_of_pos (by omega) (by omega)
+      omega
+    rw [Int.max_eq_left ha', Int.toNat_of_nonneg (by omega)]
+    ring
+
+/-- **A voxel that scores like its background scores 0** (for every background score other than 1) -/
+theorem bgNorm_self (x : Int × Nat) (hb : 0 < x.2) (h1 : x.1 ≠ x.2) : bgNorm x x = .fin 0 1 := by
+  unfold bgNorm
+  have hnum : x.1 * (x.2 : Int) - x.1 * x.2 = 0 := by omega
+  have hden : ¬ ((x.2 : Int) * ((x.2 : Int) - x.1) == 0) = true := by
+    simp only [beq_iff_eq, Int.mul_eq_zero, not_or]
+    omega
+  simp only [hnum, hden, Bool.false_eq_true, if_false, Int.le_refl, if_true]
+  split <;> rfl
+
+/-- **A perfect foreground score stays perfect** under any background score below 1 -/
+theorem bgNorm_one (b : Nat) (bg : Int × Nat) (hb : 0 < b) (hlt : bg.1 < bg.2) :
+    ∃ n d, bgNorm ((b : Int), b) bg = .fin n d ∧ 0 < d ∧ n = (d : Int) := by
+  have hd : (0 : Int) < (b : Int) * ((bg.2 : Int) - bg.1) := Int.mul_pos (by omega) (by omega)
+  have e : (b : Int) * (bg.2 : Int) - bg.1 * (b : Int) = (b : Int) * ((bg.2 : Int) - bg.1) := by ring
+  unfold bgNorm
+  simp only [e]
+  have h1 : ¬ ((b : Int) * ((bg.2 : Int) - bg.1) == 0) = true := by simp; omega
+  have h2 : ¬ (b : Int) * ((bg.2 : Int) - bg.1) < 0 := by omega
+  have h3 : ¬ (b : Int) * ((bg.2 : Int) - bg.1) ≤ 0 := by omega
+  simp only [h1, h2, h3, Bool.false_eq_true, if_false]
+  refine ⟨_, _, rfl, by omega, ?_⟩
+  rw [Int.toNat_of_nonneg (by omega)]
+
+example : bgNorm (3, 4) (1, 2) = .fin 2 4 ∧ bgNorm (1, 4) (1, 2) = .fin 0 1 ∧ bgNorm (3, 4) (4, 4) = .fin 0 1 ∧
+    bgNorm (5, 4) (4, 4) = .inf ∧ bgNorm (1, 4) (6, 4) = .fin 20 8 := by decide
+
+
+/-! ## Merging several results (`postprocess.merge_outputs`) -/
+
+/-- the merged score bounds the running value and every input, and is one of them -/
+theorem mergeVoxelFrom_score : ∀ (l : List Int) (lab : Nat) (c : Int × Nat),
+    c.1 ≤ (mergeVoxelFrom c lab l).1 ∧ (∀ x ∈ l, x ≤ (mergeVoxelFrom c lab l).1) ∧
+    ((mergeVoxelFrom c lab l).1 = c.1 ∨ (mergeVoxelFrom c lab l).1 ∈ l)
+  | [], _, c => by simp [mergeVoxelFrom]
+  | x :: xs, lab, c => by
+    obtain ⟨h1, h2, h3⟩ := mergeVoxelFrom_score xs (lab + 1) (mergeStep c x lab)
+    have hs : c.1 ≤ (mergeStep c x lab).1 ∧ x ≤ (mergeStep c x lab).1 ∧ ((mergeStep c x lab).1 = c.1 ∨ (mergeStep c x lab).1 = x) := by
+      unfold mergeStep
+      split
+      · rename_i hlt
+        exact ⟨by simp only; omega, by simp only; omega, Or.inr rfl⟩
+      · rename_i hge
+        exact ⟨Int.le_refl _, by omega, Or.inl rfl⟩
+    simp only [mergeVoxelFrom]
+    refine ⟨by omega, ?_, ?_⟩
+    · intro y hy
+      rcases List.mem_cons.mp hy with rfl | hy
+      · omega
+      · exact h2 y hy
+    · rcases h3 with h3 | h3
+      · rcases hs.2.2 with e | e
+        · left; rw [h3, e]
+        · right; rw [h3, e]; exact List.mem_cons_self
+      · right; exact List.mem_cons_of_mem _ h3
+
+/-- **The merged score map is the elementwise maximum of the inputs** -/
+theorem mergeVoxel_score (all : List Int) (hne : all ≠ []) :
+    (∀ x ∈ all, x ≤ (mergeVoxel all).1) ∧ (mergeVoxel all).1 ∈ all := by
+  cases all with
+  | nil => exact absurd rfl hne
+  | cons first rest =>
+    obtain ⟨h1, h2, h3⟩ := mergeVoxelFrom_score (first :: rest) 1 (first, 0)
+    refine ⟨h2, ?_⟩
+    rcases h3 with h3 | h3
+    · show (mergeVoxelFrom (first, 0) 1 (first :: rest)).1 ∈ first :: rest
+      rw [h3]; exact List.mem_cons_self
+    · exact h3
+
+/-- **and therefore does not depend on the order in which the input files are given** -/
+theorem mergeVoxel_score_perm (a b : List Int) (h : a.Perm b) : (mergeVoxel a).1 = (mergeVoxel b).1 := by
+  by_cases hne : a = []
+  · subst hne; rw [h.symm.eq_nil]
+  · have hnb : b ≠ [] := fun e => hne (by rw [e] at h; exact h.eq_nil)
+    obtain ⟨a1, a2⟩ := mergeVoxel_score a hne
+    obtain ⟨b1, b2⟩ := mergeVoxel_score b hnb
+    have := a1 _ (h.symm.subset b2)
+    have := b1 _ (h.subset a2)
+    omega
+
+/-- the label bookkeeping of the loop: either no input beats the running value (value and entity stay), or the entity is the
+label of the *first* input that attains the final (strictly larger) value -/
+theorem mergeVoxelFrom_entity : ∀ (l : List Int) (lab : Nat) (c : Int × Nat),
+    (mergeVoxelFrom c lab l = c ∧ ∀ x ∈ l, x ≤ c.1) ∨
+    (∃ j, (mergeVoxelFrom c lab l).2 = lab + j ∧ l[j]? = some (mergeVoxelFrom c lab l).1 ∧ c.1 < (mergeVoxelFrom c lab l).1 ∧
+      ∀ i y, i < j → l[i]? = some y → y < (mergeVoxelFrom c lab l).1)
+  | [], _, c => Or.inl ⟨rfl, by simp⟩
+  | x :: xs, lab, c => by
+    simp only [mergeVoxelFrom]
+    have hstep : (c.1 < x ∧ mergeStep c x lab = (x, lab)) ∨ (x ≤ c.1 ∧ mergeStep c x lab = c) := by
+      unfold mergeStep
+      by_cases h : c.1 < x
+      · left; exact ⟨h, by simp [h]⟩
+      · right; exact ⟨by omega, by simp [h]⟩
+    have ih := mergeVoxelFrom_entity xs (lab + 1) (mergeStep c x lab)
+    generalize mergeStep c x lab = c' at hstep ih ⊢
+    rcases ih with ⟨he, hall⟩ | ⟨j, hj1, hj2, hj3, hj4⟩
+    · rcases hstep with ⟨hlt, rfl⟩ | ⟨hle, rfl⟩
+      · right
+        refine ⟨0, ?_, ?_, ?_, ?_⟩
+        · rw [he]; rfl
+        · rw [he]; rfl
+        · rw [he]; exact hlt
+        · intro i y hi; omega
+      · left
+        refine ⟨he, ?_⟩
+        intro y hy
+        rcases List.mem_cons.mp hy with rfl | hy
+        · exact hle
+        · exact hall y hy
+    · right
+      refine ⟨j + 1, by omega, by simpa using hj2, ?_, ?_⟩
+      · rcases hstep with ⟨hlt, rfl⟩ | ⟨hle, rfl⟩
+        · simp only at hj3; omega
+        · exact hj3
+      · intro i y hi hy
+        cases i with
+        | zero =>
+          simp only [List.getElem?_cons_zero, Option.some.injEq] at hy
+          subst hy
+          rcases hstep with ⟨hlt, rfl⟩ | ⟨hle, rfl⟩
+          · exact hj3
+          · omega
+        | succ i' =>
+          simp only [List.getElem?_cons_succ] at hy
+          exact hj4 i' y (by omega) hy
+
+/-- **The entity map**: entity 0 means that no input exceeds the first one at that voxel; entity `e > 0` is the (1-based) position
+of the *first* input file, in command-line order, whose value is the merged maximum -/
+theorem mergeVoxel_entity (first : Int) (rest : List Int) :
+    ((mergeVoxel (first :: rest)).2 = 0 ∧ (mergeVoxel (first :: rest)).1 = first ∧ ∀ x ∈ rest, x ≤ first) ∨
+    (∃ j, (mergeVoxel (first :: rest)).2 = j + 1 ∧ (first :: rest)[j]? = some (mergeVoxel (first :: rest)).1 ∧
+      first < (mergeVoxel (first :: rest)).1 ∧ ∀ i y, i < j → (first :: rest)[i]? = some y → y < (mergeVoxel (first :: rest)).1) := by
+  show ((mergeVoxelFrom (first, 0) 1 (first :: rest)).2 = 0 ∧ _) ∨ _
+  rcases mergeVoxelFrom_entity (first :: rest) 1 (first, 0) with ⟨he, hall⟩ | ⟨j, hj1, hj2, hj3, hj4⟩
+  · left
+    refine ⟨by rw [he], by show (mergeVoxelFrom (first, 0) 1 (first :: rest)).1 = first; rw [he], ?_⟩
+    intro x hx
+    exact hall x (List.mem_cons_of_mem _ hx)
+  · right
+    exact ⟨j, by show (mergeVoxelFrom (first, 0) 1 (first :: rest)).2 = j + 1; omega, hj2, hj3, hj4⟩
+
+/-- **Witness: the entity map does depend on the order** - of two inputs that tie at a voxel the one listed first is credited
+(the comparison is strict), so swapping them credits the other file; a voxel where no later input beats the first keeps entity 0 -/
+theorem mergeVoxel_entity_order_current_quirk :
+    mergeVoxel [1, 5, 5] = (5, 2) ∧ mergeVoxel [1, 5, 7] = (7, 3) ∧ mergeVoxel [1, 7, 5] = (7, 2) ∧
+    mergeVoxel [5, 5, 1] = (5, 0) ∧ mergeVoxel [5, 1, 5] = (5, 0) := by decide
+
+example : mergeVoxel [3, -2, 8, 8, 1] = (8, 3) := by decide
 
 end Pm.C18
